@@ -653,6 +653,9 @@ class cst(exp):
     @_checkarg_numeric
     def __lshift__(self, n):
         if n._is_cst:
+            if n.v >= self.size:
+                # all bits are shifted out (and python can't build 1<<(2**40))
+                return cst(0, self.size)
             return cst(self.value << n.value, self.size)
         else:
             return exp.__lshift__(self, n)
@@ -2184,6 +2187,9 @@ def eqn2_helpers(e, bitslice=False, widening=False):
             c[0 : e.size] = cst(0, e.size)
             c[i1 : i2 + 1] = e.l[i1 : i2 + 1]
             return c.simplify()
+        elif e.op.symbol in (OP_LSL, OP_LSR) and e.r.v >= e.l.size:
+            # all bits are shifted out:
+            return cst(0, e.size)
         elif bitslice and e.op.symbol in (OP_AND, OP_OR, OP_XOR):
             return composer(
                 [e.op(e.l[i : i + 1], e.r[i : i + 1]) for i in range(e.size)]
